@@ -1,6 +1,8 @@
 """C08 - accepted programs end in a BASIC-level outcome: error-code and argument kernels never fail internally (DESIGN 4/C08)."""
 from vklib import Builder
 import strkernels as sk
+import bifn
+import slicer
 from C05 import error_code_harnesses
 
 
@@ -110,6 +112,19 @@ def spec(tier, seed):
     casts = b.file(sk.CASTS_FILE, "rusty_basic", "interpreter::variant_casts")
     sk.arg_casts(b, casts, "vk_c08")
 
+    # STRING * n: pad / truncate, also when the cut falls inside a multi-byte character
+    su = b.file(sk.SU_FILE, "rusty_basic", "interpreter::string_utils")
+    for shape, length, t in (("xe", 2, "quick"), ("ex", 1, "quick"), ("xx", 1, "quick"), ("x", 3, "quick"), ("xex", 2, "thorough"), ("ee", 3, "thorough")):
+        sk.fix_length_kernel(b, su, "vk_c08", shape, length, t)
+
+    # LEFT$, RIGHT$, LTRIM$, RTRIM$, UCASE$, LCASE$ on text with multi-byte characters: the body of run() sliced from the current source
+    notes = []
+    try:
+        bifn.total_on_unicode(b, "vk_c08", 1, "quick")
+        bifn.total_on_unicode(b, "vk_c08", 2, "thorough")
+    except slicer.SliceError as e:
+        notes.append("built-in bodies could not be sliced from the current tree (%s): the LEFT$/RIGHT$/... instances are missing from this run" % e)
+
     # (probed: Context::push_error_handler_context after 0..3 begin_collecting_arguments, then pop - with RandomState::new stubbed
     # to fixed keys because HashMap::new() issues a getrandom system call Kani does not model: no verdict in 600 s; dropping a
     # MemoryBlock drags in the Variant drop glue.  The activation stack stays outside the claim.)
@@ -134,10 +149,11 @@ def spec(tier, seed):
                          "rusty_basic::interpreter::main::NearestStatementFinder::find_next"])
     return b.build(
         tier,
+        notes=notes,
         bounds="RuntimeError exhaustively; texts of 1..2 (quick) / 1..3 (thorough) letters over {a, b, U+00E9}; VAL texts of 1..3 / 1..4 characters; "
                "numbers full width",
         outside="that the linter rules out what the run time assumes (to_str_unchecked, PRINT (UCASE$(5)), unresolved labels, missing variable "
                 "info); console input (ReadInputSource); PRINT USING; every built-in other than MID$/INSTR/VAL",
-        stubs=["f64::powi(10.0, k) -> exact product for 0 <= k <= 6 (Kani over-approximates powi); used only by vk_c08_val_total_*"],
+        stubs=[bifn.STUB_NOTE, "f64::powi(10.0, k) -> exact product for 0 <= k <= 6 (Kani over-approximates powi); used only by vk_c08_val_total_*"],
         assumptions=["arguments have the statically admissible type (a string where a string is expected)"],
     )
